@@ -249,13 +249,23 @@ fn run(input: RunInput) -> ScenFuture {
         if x_online && !w.violated() && w.flag("address_changes_hands", 0.35) {
             let x = x_node.take().unwrap();
             let x_addr = x.addr;
+            let silent = w.flag("old_holder_vanishes_silently", 0.5);
             if let Ok(pid) = h.net.connect(x_addr).await {
                 check_id(&w, Some(pid), x_id, "dial-returned-identity-the-remote-does-not-hold", "honest dial of X before the takeover");
                 let _ = rpc_bounded(&h, x_id, Request::new(Bytes::from_static(b"hello-x")), Duration::from_secs(3)).await;
-                let _ = h.net.disconnect(pid);
+                // in part of the runs X vanishes without a word (cut off before it goes down): H
+                // still lists X and holds a connection "to that address" when the new holder
+                // answers there
+                if silent {
+                    w.fabric.isolate(x_addr);
+                    w.probe("old-holder-still-listed-at-takeover");
+                } else {
+                    let _ = h.net.disconnect(pid);
+                }
             }
             let _ = tokio::time::timeout(Duration::from_secs(30), x.net.shutdown()).await;
             drop(x);
+            w.fabric.heal_all();
             sleep_ms(50).await;
             if !w.fabric.is_bound(x_addr) {
                 let adv = adv_endpoint(&w, AdvSpec {
@@ -281,7 +291,8 @@ fn run(input: RunInput) -> ScenFuture {
                 match h.net.connect(x_addr).await {
                     Ok(pid) => {
                         check_id(&w, Some(pid), adv_id, "dial-returned-identity-the-remote-does-not-hold", "plain dial of an address that changed hands");
-                        w.check(h.net.peers().contains(&adv_id) && !h.net.peers().contains(&x_id), "listed-identity-nobody-holds", "address-changed-hands", || format!("after dialing X's former address H lists {:?}", h.net.peers().iter().map(|p| w.pname(p)).collect::<Vec<_>>()));
+                        // (X that vanished silently is legitimately listed until its connection times out)
+                        w.check(h.net.peers().contains(&adv_id) && (silent || !h.net.peers().contains(&x_id)), "listed-identity-nobody-holds", "address-changed-hands", || format!("after dialing X's former address H lists {:?}", h.net.peers().iter().map(|p| w.pname(p)).collect::<Vec<_>>()));
                         if let Ok(resp) = rpc_bounded(&h, pid, Request::new(Bytes::from_static(b"hello")).with_extension(x_id), Duration::from_secs(3)).await {
                             check_id(&w, resp.peer_id().copied(), adv_id, "response-attributed-to-wrong-identity", "address that changed hands");
                         }
